@@ -2,6 +2,7 @@ import Litep2pVerif.Proofs.Bitswap.Prefix
 import Litep2pVerif.Proofs.Bitswap.Batch
 import Litep2pVerif.Proofs.Bitswap.Proto
 import Litep2pVerif.Generated.Consts
+import Litep2pVerif.Proofs.Node.Wiring
 /-!
 # C20 — Bitswap blocks are verified against their content identifier; responses are split within
 the size limit
@@ -586,3 +587,45 @@ end ProtoLevel
 #print axioms queue_untouched_by_other_events
 
 end Litep2pVerif.Props.C20
+
+/-! ## Wiring — bitswap's registration
+
+Over the wiring model `Model/Node/Wiring.lean` (`Node.new c` = `Litep2p::new(ConfigBuilder…build())`, `notes` / `tcpHeld` =
+what the constructed protocol objects / the TCP transport hold, `protocolCodec` = `ProtocolSet::protocol_codec`), tied to
+the real code by the `node` area: real nodes built through the public API print what the CONSTRUCTED objects hold and what
+a connection's `ProtocolSet` answers for every main and fallback name; the driver prints the model's; compared exactly. -/
+namespace Litep2pVerif.Props.C20.Wiring
+open Litep2pVerif Litep2pVerif.Node
+
+/-- Kademlia setter calls of the sample: a later call overrides an earlier one; zero bounds. -/
+def sampleSets : List KadSet := [.maxRecords 5, .replication 3, .maxRecords 0, .maxProviderKeys 0, .validationMode false]
+
+/-- A configuration with fallback names, zero store bounds and non-default transport settings (non-vacuity examples). -/
+def sample : Config :=
+  { keepAliveMs := some 600, listen := [1],
+    notif := [{ name := "/n/new", max := 32, handshake := "01", fallback := ["/n/a"], mode := 'a', sync := some 7, async := none,
+                dial := some false }],
+    rr := [{ name := "/r/new", max := 256, timeoutMs := 800, fallback := ["/r/a", "/r/b"], maxInbound := some 3 }],
+    user := [⟨"/u/a", .identity 8⟩],
+    kad := [{ names := ["/k/2", "/k/1"], max := some 2048,
+              sets := sampleSets }],
+    ping := some 1, identify := true, bitswap := true, maxParallelDials := some 0,
+    tcpSets := [.readAhead 3, .parallelDials 7, .writeBuffer 4] }
+
+/-- An enabled bitswap is registered under its name as a keep-alive protocol with the varint codec bounded by
+`MAX_MESSAGE_SIZE` — the bound the batch limits of this property are proved against —, that is the codec a connection answers
+for its name, and its protocol object is constructed. -/
+theorem bitswap_config_reaches_protocol (c : Config) (w : Wired) (h : Node.new c = .ok w) (hb : c.bitswap = true) :
+    (∃ r ∈ w.regs, r.name = bitswapName ∧ r.codec = .varint (some Consts.BITSWAP_MAX_MESSAGE_SIZE) ∧ r.keepAlive = true) ∧
+    protocolCodec w.regs bitswapName = some (.varint (some Consts.BITSWAP_MAX_MESSAGE_SIZE)) ∧
+    Note.bitswap ∈ notes (build c) := by
+  obtain ⟨hreg, _, rfl⟩ := wire_ok h
+  have hm := bitswap_mem_registrations (build c) hb
+  exact ⟨⟨_, hm, rfl, rfl, rfl⟩, (protocolSet_of_claim hreg hm (by simp [Registration.claims])).1, notes_bitswap_mem _ hb⟩
+
+example : ∃ w, Node.new sample = .ok w ∧ protocolCodec w.regs bitswapName = some (.varint (some 4194304)) :=
+  ⟨_, rfl, by decide⟩
+
+end Litep2pVerif.Props.C20.Wiring
+
+#print axioms Litep2pVerif.Props.C20.Wiring.bitswap_config_reaches_protocol
